@@ -261,7 +261,7 @@ def c16_program(pi: int, o1: int, o2: int, vel: int, ch: int, vi: int, rep: int,
 def c16_single(pi: int, o1: int, o2: int, vel: int, ch: int, rep: int, bpm: int, kind: int) -> bool:
     """write_Note / write_NoteContainer: the content lasts 72 ticks, repeated rep+1 times"""
     rep = enum(rep, 0, 3)
-    kind = enum(kind, 0, 2)
+    kind = enum(kind, 0, 4)
     ns = _mk_notes(pi, o1, o2, vel, ch, 2)
     assume(_pitch(ns[0]) < _pitch(ns[1]))
     assume(0 <= _pitch(ns[0]) and _pitch(ns[1]) <= 127)
@@ -269,9 +269,15 @@ def c16_single(pi: int, o1: int, o2: int, vel: int, ch: int, rep: int, bpm: int,
     if kind == 0:
         ok = MFO.write_Note(path, ns[0], bpm, rep)
         sounding = ns[:1]
-    else:
+    elif kind == 1:
         ok = MFO.write_NoteContainer(path, NoteContainer(list(ns)), bpm, rep)
         sounding = ns
+    elif kind == 2:
+        ok = MFO.write_NoteContainer(path, NoteContainer([ns[1]]), bpm, rep)
+        sounding = ns[1:]
+    else:
+        ok = MFO.write_NoteContainer(path, NoteContainer(), bpm, rep)
+        sounding = []
     if not ok:
         return False
     fmt, ntr, div, tracks = smf.parse(vio.get(path))
@@ -336,6 +342,6 @@ def claims(tier):
             if not fits(shape, vi):
                 continue
             cl.append(Claim("program[%s,v=%s]" % (shape, round(VALS[vi], 3)), c16_program, params={"shape": shape, "vi": vi, "maxrep": 1 if q else 2}, group="c16_program", pre=[lambda pi, o1, o2, vel, ch, vi, rep, inr: 0 <= pi < len(POOL) and 1 <= o1 <= 8 and 1 <= o2 <= 8 and 0 <= vel <= 127 and 0 <= ch <= 15 and vi == P["vi"] and 0 <= rep <= P["maxrep"] and 0 <= inr <= 127], timeout=1200 if q else 3000, per_path=60, bounds="shape %s with value %s; 4 name pairs incl. B#/Cb; both octaves 1..8, velocity 0..127, channel 0..15, instrument number 0..127 symbolic; repeat 0..%d" % (shape, round(VALS[vi], 3), 1 if q else 2)))
-    cl.append(Claim("single", c16_single, pre=[lambda pi, o1, o2, vel, ch, rep, bpm, kind: 0 <= pi < len(POOL) and 0 <= o1 <= 9 and 0 <= o2 <= 9 and 0 <= vel <= 127 and 0 <= ch <= 15 and 0 <= rep <= 2 and 4 <= bpm <= 10 ** 6 and 0 <= kind < 2], timeout=1200 if q else 3000, bounds="write_Note / write_NoteContainer: octaves, velocity, channel, bpm symbolic; repeat 0..2"))
+    cl.append(Claim("single", c16_single, pre=[lambda pi, o1, o2, vel, ch, rep, bpm, kind: 0 <= pi < len(POOL) and 0 <= o1 <= 9 and 0 <= o2 <= 9 and 0 <= vel <= 127 and 0 <= ch <= 15 and 0 <= rep <= 2 and 4 <= bpm <= 10 ** 6 and 0 <= kind < 4], timeout=1200 if q else 3000, bounds="write_Note / write_NoteContainer (two notes, one note, empty): octaves, velocity, channel, bpm symbolic; repeat 0..2"))
     cl.append(Claim("composition", c16_composition, pre=[lambda ntr, o1, o2, vel, ch, bpm: 0 <= ntr <= 4 and 1 <= o1 <= 7 and 1 <= o2 <= 7 and 0 <= vel <= 127 and 0 <= ch <= 15 and 4 <= bpm <= 10 ** 6], timeout=1200 if q else 3000, bounds="write_Composition with 0..4 tracks (different keys, leading rests, names); octaves, velocity, channel, bpm symbolic"))
     return cl
